@@ -28,6 +28,7 @@ var smlEnumVocab = []string{
 	"5", "-1", "300", "0x1F", "0b11", "1.5", "1e39", `"ab"`, `""`, "x", "y[1]", "...", "...[3]", "T", "false",
 	"S2F2", "S1F0", "W", "H->E", "//c\n", "*",
 	".\u0663", "e.\u0663", "\uff15", // a non-ASCII digit behind a dot, behind a name ending in e and a dot, alone
+	"[1\n]", // a size declaration over two lines
 }
 
 // contexts: where the words go
@@ -39,7 +40,7 @@ var smlEnumCtx = map[string][2]string{
 	"two":  {"S1F1 W <U1 x> . ", ""}, // behind a complete message
 }
 
-var smlEnumSmall = []string{"<", ">", "L", "A", "U1", "F4", "[2]", "5", "300", `"ab"`, "x", "..."}
+var smlEnumSmall = []string{"<", ">", "L", "A", "U1", "F4", "[2]", "5", "300", `"ab"`, "x", "...", "[1\n]"}
 
 // -arg: comma-separated ctx:vocabulary:length, e.g. "item:full:2,list:small:4"
 func driverSmlEnum(c *Ctx) {
